@@ -2,7 +2,24 @@
 
 package vfrac
 
-import "sync"
+import (
+	"sync"
+	"time"
+)
 
 // WG is the WaitGroup type frac.Active.Append expects in this build configuration.
 type WG = sync.WaitGroup
+
+// waitIndexed waits until the index worker has processed the bulk. Indexing a bulk of a few documents takes
+// milliseconds; if it has not finished after five minutes it never will (a worker that skips the Done of a bulk),
+// and the harness process ends with a panic - which the driver reports as a violation - instead of hanging until
+// the go test timeout, which would end without a verdict.
+func waitIndexed(wg *WG) {
+	done := make(chan struct{})
+	go func() { wg.Wait(); close(done) }()
+	select {
+	case <-done:
+	case <-time.After(5 * time.Minute):
+		panic("vfrac: the index worker did not finish an acknowledged bulk within 5 minutes (the bulk is never indexed)")
+	}
+}
